@@ -176,6 +176,19 @@ CHECKS["C09"] = {
     ],
 }
 
+PBP = "./pb/"
+CHECKS["C10"] = {
+    "engine": "wire",
+    "level": "exploration",
+    "technique": "structured property-based fuzzing (rapid) of the client side: ProtocolMessenger methods against generated responses over the whole schema (round-tripped through bytes), the real message sender against byte-level remote behaviour, lookups against flooding peers",
+    "level_text": "Three layers: ProtocolMessenger methods over a fake sender returning generated responses; the real message sender over fake streams whose remote end writes arbitrary bytes, oversize frames, nothing, or closes mid-frame; "
+                  "public lookups where simulated peers flood. Oracle: result or error, never a panic or a wait past the read timeout; wrong-key records rejected; returned peer records <= 8 KiB with decodable addresses; <= 2K peers per response enter a lookup. Exploration.",
+    "level_note": "Responses are always wire-reachable (marshal -> bytes -> unmarshal); 'permanently block' is decided as bounded virtual time under synctest; the transport is the in-memory pipe model.",
+    "parts": [
+        {"part": "messenger", "pkg": PBP, "test": "TestVerif_C10_Messenger", "quick": 4000, "thorough": 60000},
+    ],
+}
+
 MANIFEST_HEAD = {
     "version": 1,
     "setup_cmd": "bin/check --setup",
